@@ -9,14 +9,15 @@
 (*         through their defining postcondition (r >= 0 /\ r^2 = s), the   *)
 (*         cosine through a Taylor enclosure with an explicit remainder.   *)
 (* Part 2: acceptance predicates "the observed floating result r is a      *)
-(*         faithful evaluation of the definition", each with an explicit   *)
-(*         forward error bound  k * eps * scale  (eps = 2^-23 / 2^-52 =    *)
-(*         2 unit roundoffs; scale = sum of the magnitudes of the          *)
-(*         intermediate terms).  The bounds are the textbook first-order   *)
-(*         bounds of the straightforward evaluation order (a dot product   *)
-(*         of length L: L u sum|a_i b_i|, u = eps/2) with a factor <= 2 of *)
-(*         slack; they hold for any evaluation order and with or without   *)
-(*         fused multiply-add.                                             *)
+(*         faithful evaluation of the definition", evaluated division-free *)
+(*         in exact dyadic arithmetic, each with an explicit forward error *)
+(*         bound  k * eps * scale  (eps = 2^-23 / 2^-52 = 2 unit           *)
+(*         roundoffs u; scale = sum of the magnitudes of the intermediate  *)
+(*         terms).  The bounds are the textbook first-order bounds of the  *)
+(*         evaluation (a dot product of length L: L u sum|a_i b_i|) with a *)
+(*         factor of about 2 of slack; they hold for any summation order   *)
+(*         and with or without fused multiply-add.                         *)
+(*         MC_C12 checks that the dyadic forms agree with part 1.          *)
 (***************************************************************************)
 EXTENDS LinQ
 
@@ -200,49 +201,50 @@ JRefractFormulaOk(r, I, N, eta, f) ==
 \* faceforward: the sign of dot(Nref, I) is beyond doubt when |dot| > L eps sum|..| (or when the evaluation is exact)
 JDotSignCertain(a, b, f) == DLt(DTol(JDotK(Len(a)), DvDotAbs(a, b), f), DAbs(DvDot(a, b)))
 
-\* proj(x,n) = dot(x,n)/dot(n,n)*n: error_i <= (L+1) eps |n_i| sum|x_j n_j| / |n|^2; k = L + 2.  Multiplied by |n|^2:
+\* proj(x,n) = dot(x,n)/dot(n,n)*n: error_i <= (L+1) eps |n_i| sum|x_j n_j| / |n|^2; k = 2L + 2.  Multiplied by |n|^2:
 JProjOk(r, x, n, f) == LET nn == DvDot(n, n) xn == DvDot(x, n) da == DvDotAbs(x, n)
-                       IN \A i \in 1..Len(x) : DLe(DAbs(DSub(DMul(r[i], nn), DMul(n[i], xn))), DTol(Len(x) + 2, DMul(DAbs(n[i]), da), f))
-\* perp = x - proj: k = L + 3 on |x_i| + |n_i| sum|x_j n_j| / |n|^2
+                       IN \A i \in 1..Len(x) : DLe(DAbs(DSub(DMul(r[i], nn), DMul(n[i], xn))), DTol(2 * Len(x) + 2, DMul(DAbs(n[i]), da), f))
+\* perp = x - proj: error_i <= (L + 3/2) eps (..); k = 2L + 3 on |x_i| + |n_i| sum|x_j n_j| / |n|^2
 JPerpOk(r, x, n, f) == LET nn == DvDot(n, n) xn == DvDot(x, n) da == DvDotAbs(x, n)
                        IN \A i \in 1..Len(x) : DLe(DAbs(DAdd(DMul(DSub(r[i], x[i]), nn), DMul(n[i], xn))),
-                                                   DTol(Len(x) + 3, DAdd(DMul(DAbs(x[i]), nn), DMul(DAbs(n[i]), da)), f))
+                                                   DTol(2 * Len(x) + 3, DAdd(DMul(DAbs(x[i]), nn), DMul(DAbs(n[i]), da)), f))
 
 \* orthonormalize(x, y) = normalize(x - y * dot(y, x)): the difference carries e_i = 4 eps (|x_i| + |y_i| sum|y_j x_j|)
 JOrtho2Dir(x, y) == DvSub(x, DvScale(y, DvDot(y, x)))
 JOrtho2Err(x, y, f) == LET da == DvDotAbs(y, x) IN [i \in 1..Len(x) |-> DTol(4, DAdd(DAbs(x[i]), DMul(DAbs(y[i]), da)), f)]
-JOrtho2Ok(r, x, y, f) == \E w \in {JOrtho2Dir(x, y)} : \E e \in {JOrtho2Err(x, y, f)} : \E rr \in {r} : \E yy \in {y} :
-                         JDirOf(rr, w, e, 7, f) /\ JOrthoAfterNormalize(rr, yy, w, e, 7, f)
+JOrtho2OkWE(r, y, w, e, f) == JDirOf(r, w, e, 7, f) /\ JOrthoAfterNormalize(r, y, w, e, 7, f)
+JOrtho2Ok(r, x, y, f) == JOrtho2OkWE(r, y, JOrtho2Dir(x, y), JOrtho2Err(x, y, f), f)
 \* orthonormalize(mat3) = Gram-Schmidt.  Directions scaled by positive factors to stay division-free:
 \*   W1 = |m0|^2 m1 - (m0.m1) m0 = |m0|^2 w1,      W2 = |m0|^2 |W1|^2 m2 - |W1|^2 (m0.m2) m0 - |m0|^2 (W1.m2) W1 = |m0|^2 |W1|^2 w2
 \* Well conditioned (every column keeps at least half of its length after the projections are removed, |w_k|^2 >= |m_k|^2 / 4):
-\* directions within e_1 = 16 eps |m_1|_1, e_2 = 64 eps |m_2|_1, columns mutually orthogonal within 512 eps.
+\* directions within e_1 = 16 eps |m_1|_1, e_2 = 128 eps |m_2|_1 (worst-case stacking gives 6.5 and 59),
+\* columns mutually orthogonal within 1024 eps.
 \* Otherwise only: first column = normalize(m_0), every column a unit vector.
 JGS1(m0, m1) == DvSub(DvScale(m1, DvDot(m0, m0)), DvScale(m0, DvDot(m0, m1)))
-JGS2(m0, m1, m2) == LET W1 == JGS1(m0, m1) a == DvDot(m0, m0) b == DvDot(W1, W1)
-                    IN DvSub(DvSub(DvScale(m2, DMul(a, b)), DvScale(m0, DMul(b, DvDot(m0, m2)))), DvScale(W1, DMul(a, DvDot(W1, m2))))
-JOrtho3WellCond(m0, m1, m2) ==
-    LET a == DvDot(m0, m0) W1 == JGS1(m0, m1) b == DvDot(W1, W1) W2 == JGS2(m0, m1, m2)
-    IN /\ DSign(a) > 0 /\ DSign(b) > 0 /\ ~DvIsZero(W2)
-       /\ DLe(DMul(DvDot(m1, m1), DSq(a)), DMulInt(b, 4))
-       /\ DLe(DMul(DvDot(m2, m2), DSq(DMul(a, b))), DMulInt(DvDot(W2, W2), 4))
+JGS2W(m0, m2, W1, a, b) == DvSub(DvSub(DvScale(m2, DMul(a, b)), DvScale(m0, DMul(b, DvDot(m0, m2)))), DvScale(W1, DMul(a, DvDot(W1, m2))))
+JGS2(m0, m1, m2) == LET W1 == JGS1(m0, m1) IN JGS2W(m0, m2, W1, DvDot(m0, m0), DvDot(W1, W1))
+JOrtho3WellCondW(m1, m2, a, b, W2) ==
+    /\ DSign(a) > 0 /\ DSign(b) > 0 /\ ~DvIsZero(W2)
+    /\ DLe(DMul(DvDot(m1, m1), DSq(a)), DMulInt(b, 4))
+    /\ DLe(DMul(DvDot(m2, m2), DSq(DMul(a, b))), DMulInt(DvDot(W2, W2), 4))
+JOrtho3WellCond(m0, m1, m2) == LET a == DvDot(m0, m0) W1 == JGS1(m0, m1) b == DvDot(W1, W1) IN JOrtho3WellCondW(m1, m2, a, b, JGS2W(m0, m2, W1, a, b))
 JOrtho3Ok(r0, r1, r2, m0, m1, m2, f) ==
     LET unit(v) == DNear(DvDot(v, v), DUnit, DTol(8, DUnit, f))
-        a == DvDot(m0, m0) W1 == JGS1(m0, m1) b == DvDot(W1, W1)
-        cst(k, v, sc) == [i \in 1..3 |-> DMul(DTol(k, DvNorm1(v), f), sc)]
+        a == DvDot(m0, m0) W1 == JGS1(m0, m1) b == DvDot(W1, W1) W2 == JGS2W(m0, m2, W1, a, b)
+        cst(k, v, sc) == LET c == DMul(DTol(k, DvNorm1(v), f), sc) IN <<c, c, c>>
     IN /\ JNormalizeOk(r0, m0, f)
        /\ unit(r1) /\ unit(r2)
-       /\ JOrtho3WellCond(m0, m1, m2) =>
+       /\ JOrtho3WellCondW(m1, m2, a, b, W2) =>
             /\ JDirOf(r1, W1, cst(16, m1, a), 8, f)
-            /\ JDirOf(r2, JGS2(m0, m1, m2), cst(64, m2, DMul(a, b)), 8, f)
-            /\ \A p \in {<<r0, r1>>, <<r0, r2>>, <<r1, r2>>} : DLe(DAbs(DvDot(p[1], p[2])), DTol(512, DUnit, f))
+            /\ JDirOf(r2, W2, cst(128, m2, DMul(a, b)), 8, f)
+            /\ \A p \in {<<r0, r1>>, <<r0, r2>>, <<r1, r2>>} : DLe(DAbs(DvDot(p[1], p[2])), DTol(1024, DUnit, f))
 
-\* triangleNormal = normalize(cross(p1 - p2, p1 - p3)): the cross product carries e_i = 3 eps s_i
+\* triangleNormal = normalize(cross(p1 - p2, p1 - p3)): the cross product carries e_i <= 2 eps s_i; 4 eps s_i allowed
 JTriDir(p1, p2, p3) == DvCross(DvSub(p1, p2), DvSub(p1, p3))
-JTriErr(p1, p2, p3, f) == LET s == JCrossAbs(DvSub(p1, p2), DvSub(p1, p3)) IN [i \in 1..3 |-> DTol(3, s[i], f)]
-JTriOk(r, p1, p2, p3, f) ==
-    LET a == DvSub(p1, p2) b == DvSub(p1, p3) w == DvCross(a, b) e == JTriErr(p1, p2, p3, f)
-    IN JDirOf(r, w, e, 7, f) /\ JOrthoAfterNormalize(r, a, w, e, 7, f) /\ JOrthoAfterNormalize(r, b, w, e, 7, f)
+JTriErr(p1, p2, p3, f) == LET s == JCrossAbs(DvSub(p1, p2), DvSub(p1, p3)) IN [i \in 1..3 |-> DTol(4, s[i], f)]
+JTriOkWE(r, p1, p2, p3, w, e, f) ==
+    JDirOf(r, w, e, 7, f) /\ JOrthoAfterNormalize(r, DvSub(p1, p2), w, e, 7, f) /\ JOrthoAfterNormalize(r, DvSub(p1, p3), w, e, 7, f)
+JTriOk(r, p1, p2, p3, f) == JTriOkWE(r, p1, p2, p3, JTriDir(p1, p2, p3), JTriErr(p1, p2, p3, f), f)
 
 \* closestPointOnLine: t = (p-a).(b-a)/|b-a|^2 = num/den; a for t <= 0, b for t >= 1, a + t (b-a) between; the decision is
 \* within tau = (L+5) eps sum|(p-a)_i (b-a)_i| / den + 4 eps of the exact one;
@@ -262,8 +264,8 @@ JClosestMayMid(p, a, b, f) == LET num == JClosestNum(p, a, b) td == JClosestTauD
 
 \* cosine: partial sum S_n(r) = sum_{k<=n} (-1)^k r^(2k)/(2k)! evaluated exactly (Horner in x = r^2 with the common
 \* denominator (2n)!); for 0 <= r <= 3.25 the terms decrease from k = 1 on, so |cos r - S_n| <= 3.25^(2n+2)/(2n+2)!,
-\* which for n = 17 is 10.5625^18 / 36! < 7.3e-24 < 2^-70.
-JCosN == 17
+\* which for n = 17 (double) is 10.5625^18 / 36! < 7.3e-24 < 2^-70 and for n = 11 (float) 10.5625^12 / 24! < 3.2e-12 < 2^-38.
+JCosTerms(f) == IF f = F64 THEN 17 ELSE 11       \* 3.25^24 / 24! < 3.1e-12 < 2^-38 for the float tolerance (>= 2 eps = 2.4e-7)
 RECURSIVE JCosHorner(_, _, _, _)
 JCosHorner(x, k, c, acc) ==          \* c = (2n)!/(2k)!, acc = sum_{j>=k} (-1)^j c_j x^(j-k)
     IF k = 0 THEN acc
@@ -271,16 +273,16 @@ JCosHorner(x, k, c, acc) ==          \* c = (2n)!/(2k)!, acc = sum_{j>=k} (-1)^j
          IN JCosHorner(x, k - 1, c1, DAdd(DMul(acc, x), DFromZ(IF (k - 1) % 2 = 0 THEN c1 ELSE ZNeg(c1))))
 RECURSIVE JFact(_)
 JFact(n) == IF n = 0 THEN ZFromInt(1) ELSE ZMulInt(JFact(n - 1), n)
-JCosDen == DFromZ(JFact(2 * JCosN))
-JCosNum(r) == JCosHorner(DSq(r), JCosN, ZFromInt(1), DFromInt(IF JCosN % 2 = 0 THEN 1 ELSE -1))     \* S_n(r) * (2n)!
-JCosRem == DPow2(-70)
-\* angle(x,y) = acos(clamp(dot(x,y),-1,1)), judged in cosine space: |cos r - clamp(dot)| <= L eps sum|x_i y_i| + 2 eps
-\* (error of the dot product, one ulp of acos times |sin| <= 1, clamp is 1-Lipschitz) + the Taylor remainder
+JCosDen(f) == DFromZ(JFact(2 * JCosTerms(f)))
+JCosNum(r, f) == JCosHorner(DSq(r), JCosTerms(f), ZFromInt(1), DFromInt(IF JCosTerms(f) % 2 = 0 THEN 1 ELSE -1))     \* S_n(r) * (2n)!
+JCosRem(f) == IF f = F64 THEN DPow2(-70) ELSE DPow2(-38)
+\* angle(x,y) = acos(clamp(dot(x,y),-1,1)), judged in cosine space: |cos r - clamp(dot)| <= L eps sum|x_i y_i| + 4 eps
+\* (error of the dot product (L/2) eps sum|..|, one ulp of acos: r sin r eps <= 1.82 eps, clamp is 1-Lipschitz) + the Taylor remainder
 JClamp11(q) == DMax(DNeg(DUnit), DMin(DUnit, q))
 JAngleOk(r, x, y, f) ==
     /\ DSign(r) >= 0 /\ DLe(r, DMk(FALSE, <<13>>, -2))                                          \* r <= 3.25 > pi
-    /\ DLe(DAbs(DSub(JCosNum(r), DMul(JClamp11(DvDot(x, y)), JCosDen))),
-           DMul(DAdd(DAdd(DTol(JDotK(Len(x)), DvDotAbs(x, y), f), DTol(2, DUnit, f)), JCosRem), JCosDen))
+    /\ DLe(DAbs(DSub(JCosNum(r, f), DMul(JClamp11(DvDot(x, y)), JCosDen(f)))),
+           DMul(DAdd(DAdd(DTol(JDotK(Len(x)), DvDotAbs(x, y), f), DTol(4, DUnit, f)), JCosRem(f)), JCosDen(f)))
 
 \* lxNorm(v, d) = (sum |v_i|^d)^(1/d): r^d = sum (1 + (2d + 16) eps) for components of moderate size (the rounded
 \* exponent 1/d contributes u ln(sum)/d)
